@@ -473,3 +473,88 @@ func SeedCorpus() []Seeded {
 	}, "a", "aa", "baa", "bbaaa", "abaa", "")
 	return out
 }
+
+// ---------------------------------------------------------------------------
+// history / sharing templates (C07, C03): one memoized producer with k
+// alternatives (k controls the spare capacity of its result list) is consumed
+// several times at ONE input position by combinators that append to what they
+// got. This is where aliasing of a cached result list becomes observable.
+
+type SharingOpts struct {
+	Trims bool // allow RightTrim consumers (C07's known finding K1 lives there)
+}
+
+func Sharing(r *rand.Rand, o SharingOpts) *Grammar {
+	alpha := "ab"
+	if o.Trims {
+		alpha = "ab "
+	}
+	g := New(alpha, 2)
+	letters := "ab"
+	leaf := func() *Expr {
+		switch r.Intn(6) {
+		case 0:
+			return g.Mk(OpEmpty)
+		case 1:
+			return g.Mk(OpSeqOf)
+		case 2:
+			return g.Mk(OpSeqOf, g.Mk(OpEmpty))
+		case 3:
+			return g.Mk(OpSeqOf, g.Rune(letters[r.Intn(2)]))
+		default:
+			return g.Rune(letters[r.Intn(2)])
+		}
+	}
+	// producer: k alternatives
+	k := 1 + r.Intn(7)
+	var alts []*Expr
+	for i := 0; i < k; i++ {
+		alts = append(alts, leaf())
+	}
+	g.NTs[1] = g.Mk(OpAny, alts...)
+	consumer := func() *Expr {
+		m := func() *Expr { return g.Ref(1) }
+		n := 8
+		if o.Trims {
+			n = 11
+		}
+		switch r.Intn(n) {
+		case 0:
+			return g.Mk(OpAny, m(), leaf())
+		case 1:
+			return g.Mk(OpOpt, m())
+		case 2:
+			return g.Mk(OpSeqOf, m(), leaf())
+		case 3:
+			return g.Mk(OpAny, m(), m())
+		case 4:
+			return g.Mk(OpAny, leaf(), m(), leaf())
+		case 5:
+			return g.Mk(OpOpt, g.Mk(OpAny, m(), leaf()))
+		case 6:
+			return g.Mk(OpSeqOf, g.Mk(OpOpt, m()), leaf())
+		case 7:
+			return m()
+		case 8, 9:
+			e := g.Mk(OpRTrim, m())
+			e.C = byte(1 + r.Intn(2)) // WsSpaces, WsSpacesNl
+			return e
+		default:
+			e := g.Mk(OpRTrim, g.Mk(OpAny, m(), leaf()))
+			e.C = 2
+			return e
+		}
+	}
+	nc := 2 + r.Intn(4)
+	var cs []*Expr
+	for i := 0; i < nc; i++ {
+		cs = append(cs, consumer())
+	}
+	// consumers at one position: alternatives of an Any, or elements of a sequence (zero-width producers)
+	if r.Intn(2) == 0 {
+		g.NTs[0] = g.Mk(OpAny, cs...)
+	} else {
+		g.NTs[0] = g.Mk(OpSeqOf, cs...)
+	}
+	return g
+}
